@@ -46,8 +46,8 @@ class HistGen:
     def op_putAll(self):
         ins = []
         for _ in range(self.n):
-            c = self.r.choice(['V', 'V', 'V', 'Z', 'D'])
-            ins.append('V %d' % self.rec() if c == 'V' else c)
+            c = self.r.choice(['V', 'V', 'V', 'Z', 'D', 'R'])       # R: valid request with an out-of-range value (NC_ERANGE, data written)
+            ins.append('%s %d' % (c, self.rec()) if c in 'VR' else c)
         if self.r.chance(1, 12):
             ins = ['E'] * self.n                     # every rank in error: nobody waits for anybody
         self.emit('putAll | ' + ' | '.join(ins))
@@ -56,26 +56,30 @@ class HistGen:
         ins = []
         for _ in range(self.n):
             if self.r.chance(3, 4):
-                ins.append('V %d' % self.rec())
+                ins.append('%s %d' % (self.r.choice(['V', 'V', 'R']), self.rec()))
             else:
                 ins.append('N %d' % self.r.range(1, max(1, self.top)))    # writes nothing, does not reach beyond the count: harmless
         self.emit('vardAll | ' + ' | '.join(ins))
+
+    def op_putIndep(self):
+        self.emit('%s %d %d%s' % (self.r.choice(['putIndep', 'putIndep', 'vardIndep']), self.r.below(self.n), self.rec(),
+                                  ' R' if self.r.chance(1, 4) else ''))
 
     def op_iput(self):
         rk = self.r.below(self.n)
         isrec = 0 if self.r.chance(1, 5) else 1
         e = self.rec() if isrec else 0
-        # mirror of the library's queue order (sorted by variable offset, not by posting time): a request to the
-        # fixed-size variable is inserted in front of the trailing block of record-variable requests
+        toS = bool(isrec and self.r.chance(1, 4))
+        # mirror of the library's queue order (sorted by variable offset, not by posting time): the new request goes behind the
+        # last entry whose VARIABLE begins at or before the request's own offset (schema: fvar | per record rvar 16, qvar 16, svar 8 bytes)
+        vb = 0 if not isrec else (132 if toS else 100)
+        ro = vb + 40 * (e - 1) if isrec else 0
         p = self.pending[rk]
-        if isrec:
-            p.append((self.nextid, isrec, e))
-        else:
-            j = len(p)
-            while j > 0 and p[j - 1][1]:
-                j -= 1
-            p.insert(j, (self.nextid, isrec, e))
-        self.emit('iput %d %d %d %d' % (rk, self.nextid, isrec, e))
+        j = len(p)
+        while j > 0 and p[j - 1][3] > ro:
+            j -= 1
+        p.insert(j, (self.nextid, isrec, e, vb))
+        self.emit('iput %d %d %d %d%s' % (rk, self.nextid, isrec, e, ' R' if toS else ''))
         self.nextid += 1
 
     def sel_good(self, rk):
@@ -107,7 +111,7 @@ class HistGen:
             c = r.below(100)
             if self.indep:
                 if c < 30:
-                    self.emit('putIndep %d %d' % (r.below(self.n), self.rec()))
+                    self.op_putIndep()
                 elif c < 45:
                     self.op_iput()
                 elif c < 60:
